@@ -362,7 +362,7 @@ Section ToField.
     | Some ow => if bytes_eqb (sf_name ow) name then Ok ow else Err
     | None =>
       match t with
-      | TUnknown n => if o_allow_null o then Ok (mkSF name (SPrim PNull) n None) else Err
+      | TUnknown _ => if o_allow_null o then Ok (mkSF name (SPrim PNull) true None) else Err
       | TPrim n ty =>
         match ty with
         | PNull => if o_allow_null o then Ok (mkSF name (SPrim PNull) true None) else Err
